@@ -8,11 +8,14 @@ for d in sorted(glob.glob(os.path.join(HERE, "seeded", "*"))):
     m = json.load(open(os.path.join(d, "meta.json")))
     r = json.load(open(os.path.join(d, "result.json"))) if os.path.exists(os.path.join(d, "result.json")) else {}
     ck = {k[6:]: v for k, v in r.items() if k.startswith("check_")}
-    verdict = "; ".join(f"`./check {k}`: {'**caught**' if v['caught'] else 'MISSED'}"
-                        + (" (no-failing-input-found)" if v['caught'] and any('no-failing-input-found' in l for l in v['lines']) else "")
-                        + f" {v['wall_s']:.0f} s" for k, v in ck.items()) or "not run yet"
+    harmless = m.get("kind") == "harmless"
+    def word(v):
+        if harmless:
+            return "**quiet** (exit 0)" if v.get("quiet") else "FALSE ALARM"
+        return ("**caught**" if v["caught"] else "MISSED") + (" (no-failing-input-found)" if v["caught"] and any("no-failing-input-found" in l for l in v["lines"]) else "")
+    verdict = "; ".join(f"`./check {k}`: {word(v)} {v['wall_s']:.0f} s" for k, v in ck.items()) or "not run yet"
     summ = re.sub(r"\s+", " ", m["summary"]).strip()
-    needs = re.sub(r"\s+", " ", m.get("needs_to_manifest", "")).strip()
+    needs = re.sub(r"\s+", " ", m.get("needs_to_manifest", "") or ("(behaviour-preserving refactoring; the check must stay quiet) " + m.get("why_behaviour_preserving", ""))).strip()
     rows.append(f"| `{os.path.basename(d)}` | {m['property']} | {summ[:330]}{'…' if len(summ) > 330 else ''} | {needs[:260]}{'…' if len(needs) > 260 else ''} | {verdict} |")
 hdr = """## 11. Seeded changes (independent sub-agents) and which checks catch them
 
